@@ -160,7 +160,7 @@ def small(v):
 def mk(rng, t, n=None, special=False, enc_kw=None):
     n = rng.choice([0, 1, 2, 3, 3, 4]) if n is None else n
     vals = [small(G.gen_value(rng, t, 3, special)) for _ in range(n)]
-    enc = G.Enc(rng, **dict(dict(special=special), **(enc_kw or {})))
+    enc = G.Enc(rng, **dict(dict(special=special, nd=0), **(enc_kw or {})))
     return G.encode(enc, t, vals), vals
 
 
@@ -273,7 +273,7 @@ def operands(rng, kind):
             sz = size if rng.random() < 0.7 else rng.choice([0, 1, 2, 3])
             n = rng.choice([0, 1, 2, 3])
             vals = [[small(G.gen_value(rng, ti[1], 3, False)) for _ in range(sz)] for _ in range(n)]
-            enc = G.Enc(rng, special=False, list_kinds=('reg',) if rng.random() < 0.8 else ('lo', 'la', 'reg'))
+            enc = G.Enc(rng, nd=0, special=False, list_kinds=('reg',) if rng.random() < 0.8 else ('lo', 'la', 'reg'))
             lay = G.encode(enc, ti, vals)
             ops.append((ti, lay, vals))
         return ops, tags
@@ -359,7 +359,7 @@ def union_layout(rng, nested=True):
             sub, _ = union_over(rng, a, stored[i])
             children.append(sub)
         else:
-            enc = G.Enc(rng, special=False)
+            enc = G.Enc(rng, nd=0, special=False)
             children.append(G.encode(enc, a, stored[i]))
     w = rng.choice(G.WIDTHS)
     return ['un', w, tags, index + [0] * rng.choice([0, 0, 1])] + children
@@ -377,7 +377,7 @@ def union_over(rng, t, vals):
         stored[i].append(v)
     children = []
     for i in range(nalt):
-        enc = G.Enc(rng, special=False)
+        enc = G.Enc(rng, nd=0, special=False)
         children.append(G.encode(enc, t, stored[i]))
     return ['un', rng.choice(G.WIDTHS), tags, index] + children, t
 
@@ -569,7 +569,7 @@ def add_astype(rng, add, t, dst, flat):
         vals = [_fix_range(v, True) for v in vals]
     if has_float and dst == 'int8':
         pass   # float leaves are within -9..9
-    enc = G.Enc(rng, special=special)
+    enc = G.Enc(rng, nd=0, special=special)
     lay = G.encode(enc, t, vals)
     if has_float and dst in UNSIGNED:
         lay = _abs_floats(lay)
